@@ -314,6 +314,197 @@ def always_checked(rep):
     rep.floor("return statements of the attempt functions", 6)
 
 
+NOT_STATE = re.compile(r"^(const\b|std::(mutex|recursive_mutex|shared_mutex|once_flag|atomic_flag)\b)")
+
+
+def static_locals(funcs):
+    out = []
+    for f in funcs:
+        for s, n in sorted(f.stmts.items()):
+            if n["k"] == "DeclStmt":
+                for dd in n["decls"]:
+                    if dd.get("static") and not NOT_STATE.match(dd.get("type") or ""):
+                        out.append((f, s, dd))
+    return out
+
+
+def static_state_rule(rep):
+    """STATIC-STATE: no function of tfel-check keeps a mutable function-local static: a verdict depends only on the check being run, not
+    on the checks the same process ran before it (tfel-check runs every .check file of a directory tree in one process)."""
+    units = units_under("tfel-check/src")
+    d = cfgdump(units, os.path.join(OUT, "C51", "statics"), funcs=r"^tfel::check::", root=os.path.join(REPO, "tfel-check"))
+    funcs = load_functions(d)
+    rep.count("tfel-check functions examined for static state", len(funcs))
+    seen = set()
+    for f, s, dd in static_locals(funcs):
+        key = "STATIC-STATE@%s#%s" % (f.qname.split("(")[0], dd.get("name"))
+        if key in seen:
+            continue
+        seen.add(key)
+        rep.fail(key, "%s: %s keeps the static local '%s' (%s): what one check stored there is seen by the checks run after it in the same "
+                 "process - two .check files regenerating the same result file are compared with the first one's data"
+                 % (f.short_loc(s).replace(REPO + "/", ""), f.qname.split("(")[0], dd.get("name"), (dd.get("type") or "")[:60]))
+    if not seen:
+        rep.ok("no function of tfel-check keeps a mutable static local (%d functions)" % len(funcs))
+    rep.floor("tfel-check functions examined for static state", 150)
+    ctl = os.path.join(VERIF, "controls", "C51_control.cxx")
+    dc = cfgdump([ctl], os.path.join(OUT, "C51", "ctl2"), funcs=r"^verif_ctl::cached_length", flags_for=lambda u: (header_flags(), VERIF))
+    got = sorted(dd.get("name") for _f, _s, dd in static_locals(load_functions(dc)))
+    if got != ["files"]:
+        raise AnalysisBroken("STATIC-STATE control: found %s, expected the cache 'files' only" % got)
+
+
+def area_and_history_rules(rep):
+    """Three structural clauses on tfel-check's Test / Comparison / AreaComparison:
+     SETTER-GETTER: in class Test every set<X>() writes one member and no two setters write the same one; get<X>() returns the member
+       set<X>() writes (a setter writing its neighbour's member leaves its own null: the Area comparison dereferenced it);
+     VERDICT-RESET: the Comparison object is shared by the tests of a @TestType statement: setParameters (called by Test::compare before
+       every compare()) assigns success = true, so that a verdict does not depend on the tests run before;
+     AREA-VERDICT: in AreaComparison::compare the test that sets the verdict to false is NaN-safe (of the form !(a <= b) / !(a < b)), and
+       the quantity that normalises the area is built from absolute values and guarded against zero."""
+    us = [os.path.join(REPO, "tfel-check/src", x) for x in ("Test.cxx", "Comparison.cxx", "AreaComparison.cxx")]
+    d = cfgdump(us, os.path.join(OUT, "C51", "tc"), funcs=r"^tfel::check::(Test|Comparison|AreaComparison)::", root=REPO)
+    funcs = [f for f in load_functions(d) if f.parent is None]
+    # ---- SETTER-GETTER
+    def member_written(f):
+        out = []
+        for s_, n in f.stmts.items():
+            bo = f.binop(s_)
+            if bo and bo[0] == "=":
+                l = f.stmts.get(f.strip(bo[1]))
+                if l is not None and l["k"] == "MemberExpr" and f.stmts[f.strip(f.kids(f.strip(bo[1]))[0])]["k"] == "CXXThisExpr":
+                    out.append(l.get("member"))
+        return out
+
+    def member_returned(f):
+        for s_, n in f.stmts.items():
+            if n["k"] == "ReturnStmt" and f.kids(s_):
+                l = f.stmts.get(f.strip(f.kids(s_)[0]))
+                if l is not None and l["k"] == "MemberExpr":
+                    return l.get("member")
+        return None
+    setters, getters = {}, {}
+    for f in funcs:
+        m = re.match(r"^tfel::check::Test::(set|get)(\w+)$", f.qname)
+        if not m or f.body is None:
+            continue
+        if m.group(1) == "set" and len(f.params) == 1:
+            w = member_written(f)
+            if len(w) == 1:
+                setters[m.group(2)] = (w[0], f)
+        elif m.group(1) == "get" and not f.params:
+            r = member_returned(f)
+            if r:
+                getters[m.group(2)] = (r, f)
+    rep.count("setters of tfel::check::Test", len(setters))
+    by_member = {}
+    for x, (mem, f) in setters.items():
+        by_member.setdefault(mem, []).append(x)
+    for mem, xs in sorted(by_member.items()):
+        if len(xs) > 1:
+            rep.fail("SETTER-GETTER@tfel::check::Test#%s" % mem, "%s: Test::set%s and Test::set%s both write the member '%s': one of the two properties is "
+                     "never set (a null pointer for the comparison that needs it) and the other is overwritten"
+                     % (setters[xs[0]][1].loc.replace(REPO + "/", ""), xs[0], xs[1], mem))
+    for x, (mem, f) in sorted(setters.items()):
+        if x in getters and getters[x][0] != mem:
+            rep.fail("SETTER-GETTER@tfel::check::Test#get%s" % x, "Test::get%s returns '%s' but Test::set%s writes '%s'" % (x, getters[x][0], x, mem))
+    if not any(v["key"].startswith("SETTER-GETTER") for v in rep.violations):
+        rep.ok("tfel::check::Test: %d setters write %d distinct members, getters return what their setter writes" % (len(setters), len(by_member)))
+    rep.floor("setters of tfel::check::Test", 8)
+    # ---- VERDICT-RESET
+    sp = [f for f in funcs if f.qname == "tfel::check::Comparison::setParameters"]
+    tc = [f for f in funcs if f.qname == "tfel::check::Test::compare"]
+    if not sp or not tc:
+        raise AnalysisBroken("Comparison::setParameters / Test::compare not found")
+    calls = [n.get("callee") for n in tc[0].stmts.values() if n["k"] == "CXXMemberCallExpr"]
+    resets = False
+    for s_, n in sp[0].stmts.items():
+        bo = sp[0].binop(s_)
+        if bo and bo[0] == "=":
+            l = sp[0].stmts.get(sp[0].strip(bo[1]))
+            r = sp[0].stmts.get(sp[0].strip(bo[2]))
+            if l is not None and l["k"] == "MemberExpr" and l.get("member") == "success" and r is not None and r["k"] == "CXXBoolLiteralExpr" and r["value"]:
+                resets = True
+    if resets and any((c or "").endswith("Comparison::setParameters") for c in calls):
+        rep.ok("Test::compare calls Comparison::setParameters, which resets the verdict, before compare()")
+    else:
+        rep.fail("VERDICT-RESET@tfel::check::Comparison::setParameters", "the Comparison object shared by the tests of a @TestType statement is not reset to "
+                 "'success' before each comparison (its flag is only ever set to false): after one failed comparison every later one fails, a "
+                 "column compared with itself included")
+    # ---- AREA-VERDICT
+    ac = [f for f in funcs if f.qname == "tfel::check::AreaComparison::compare"]
+    if not ac:
+        raise AnalysisBroken("AreaComparison::compare not found")
+    a = ac[0]
+    pm = a.parent_map()
+    nguard = 0
+    for s_, n in a.stmts.items():
+        bo = a.binop(s_)
+        if not (bo and bo[0] == "="):
+            continue
+        l, r = a.stmts.get(a.strip(bo[1])), a.stmts.get(a.strip(bo[2]))
+        if l is None or r is None or r["k"] != "CXXBoolLiteralExpr" or r["value"] or l["k"] != "DeclRefExpr":
+            continue
+        q = s_
+        while q in pm and a.stmts[pm[q]]["k"] != "IfStmt":
+            q = pm[q]
+        if q not in pm:
+            continue
+        cond = a.strip(a.stmts[pm[q]]["cond"])
+        cn = a.stmts[cond]
+        nguard += 1
+        safe = cn["k"] == "UnaryOperator" and cn.get("op") == "!" and (a.binop(a.kids(cond)[0]) or ("",))[0] in ("<=", "<")
+        if safe:
+            rep.ok("AreaComparison::compare: the failing test '%s' is NaN-safe" % a.text(cond))
+        else:
+            rep.fail("AREA-VERDICT@tfel::check::AreaComparison::compare#nan", "%s: the test '%s' that makes the area comparison fail is false for a NaN: "
+                     "a result file holding a NaN passes" % (a.short_loc(cond).replace(REPO + "/", ""), a.text(cond)))
+    rep.count("failing tests of the area comparison", nguard)
+    divs = [(s_, a.binop(s_)) for s_ in a.stmts if a.binop(s_) and a.binop(s_)[0] in ("/=", "/")]
+    for s_, bo in divs:
+        dv = a.stmts.get(a.strip(bo[2]))
+        if dv is None or dv["k"] != "DeclRefExpr" or not dv.get("local"):
+            continue
+        rep.count("normalisations of the area")
+        # every value assigned to the divisor is an absolute value, and the division is guarded by a comparison of the divisor with zero
+        vals = []
+        for x, m in a.stmts.items():
+            if m["k"] == "DeclStmt":
+                for dd in m["decls"]:
+                    if dd.get("declId") == dv.get("declId") and "init" in dd:
+                        vals.append(dd["init"])
+            b2 = a.binop(x)
+            if b2 and b2[0] == "=" and a.stmts[a.strip(b2[1])].get("declId") == dv.get("declId"):
+                vals.append(b2[2])
+
+        def is_abs(v, depth=0):
+            vn = a.stmts.get(a.strip(v))
+            if vn is None:
+                return False
+            if vn["k"] == "CallExpr" and re.search(r"(^|::)(abs|fabs)$", (vn.get("callee") or "").split("<")[0]):
+                return True
+            if vn["k"] == "DeclRefExpr" and vn.get("local") and depth < 2:
+                for x, m in a.stmts.items():
+                    if m["k"] == "DeclStmt":
+                        for dd in m["decls"]:
+                            if dd.get("declId") == vn.get("declId") and "init" in dd:
+                                return is_abs(dd["init"], depth + 1)
+            return False
+        q, guarded = s_, False
+        while q in pm:
+            q = pm[q]
+            if a.stmts[q]["k"] == "IfStmt" and dv.get("name") in a.text(a.stmts[q]["cond"]):
+                guarded = True
+        if vals and all(is_abs(v) for v in vals) and guarded:
+            rep.ok("AreaComparison::compare: the area is normalised by '%s', an absolute value tested against zero" % dv.get("name"))
+        else:
+            rep.fail("AREA-VERDICT@tfel::check::AreaComparison::compare#normalisation", "%s: the area is divided by '%s', which is %s: a reference that is "
+                     "negative everywhere gives a negative 'error' that passes any tolerance, a null reference gives 0/0"
+                     % (a.short_loc(s_).replace(REPO + "/", ""), dv.get("name"), "not built from absolute values" if not (vals and all(is_abs(v) for v in vals)) else "not tested against zero"))
+    rep.floor("failing tests of the area comparison", 1)
+    rep.floor("normalisations of the area", 1)
+
+
 def run(tier):
     rep = Report("C51", tier, "other", RULE)
     units = sorted(set(os.path.join(REPO, v[0]) for v in TARGETS.values()))
@@ -332,6 +523,8 @@ def run(tier):
         check_function(rep, f, kids.get((f.unit, f.id), []), kind, refl)
     rep.floor("verdict functions", 6)
     always_checked(rep)
+    static_state_rule(rep)
+    area_and_history_rules(rep)
     # positive control: a copy of the classical 'err > prec' loop must be reported, its '!(err <= prec)' twin must not
     dc = cfgdump([ctl], os.path.join(OUT, "C51", "ctl"), funcs=r"^verif_ctl::", flags_for=lambda u: (header_flags(), VERIF))
     cf = load_functions(dc)
